@@ -1245,6 +1245,9 @@ class Emitter:
         e.fresh = self.fresh
         e.digits = set(getattr(self, 'digits', set()))
         e.errors = getattr(self, 'errors', {})
+        for k in ('aux', 'auxn', 'fn_name', 'err_type', 'unwrap_tail'):
+            if hasattr(self, k):
+                setattr(e, k, getattr(self, k))
         return e
 
     def loop_binder(self, pat, it):
@@ -1570,7 +1573,19 @@ class Emitter:
         if s[0] == 'for':
             t, ptxt, sub = self.loop_binder(s[1], s[2])
             body = sub.impx(self.xstmts(s[3]), cur, asg)
-            return '(List.foldlM (fun %s %s => %s) %s %s)' % (self.tupv(asg) if asg else '_', ptxt, body, self.tupv(asg), t)
+            # the loop body becomes a definition of its own (`<fn>_loop<k>`): its free locals are parameters
+            _, lty = self.ex(s[2])
+            bound = set(asg) | set(re.findall(r'[A-Za-z_]\w*', ptxt))
+            free = [n for n, (tt, tty) in self.env.items()
+                    if tt == n and n not in bound and re.search(r'(?<![\w.])%s(?![\w])' % re.escape(n), body)]
+            self.auxn[0] += 1
+            name = '%s_loop%d' % (self.fn_name, self.auxn[0])
+            sty = ' × '.join('(%s)' % lean_ty(self.env[a][1]) for a in asg) if asg else 'Unit'
+            params = ' '.join('(%s : %s)' % (n, lean_ty(self.env[n][1])) for n in free)
+            self.aux.append('/-- body of loop %d of `%s` -/\ndef %s %s : (%s) → (%s) → Except %s (%s) :=\n  fun %s %s => %s\n' % (
+                self.auxn[0], self.fn_name, name, params, sty, lean_ty(lty[1]), self.err_type, sty,
+                self.tupv(asg) if asg else '_', ptxt, body))
+            return '(List.foldlM (%s) %s %s)' % (' '.join([name] + free), self.tupv(asg), t)
         e = s[1]
         if e[0] == 'if':
             a = self.impx(self.xstmts(e[2]), cur, asg)
@@ -1677,6 +1692,34 @@ class Emitter:
         raise Untranslatable('statement %r' % (s[0] if s[0] != 'expr' else s[1][0],))
 
 
+def lean_ty(ty):
+    if ty == 'f':
+        return 'α'
+    if ty == 'n':
+        return 'Nat'
+    if ty == 'i':
+        return 'Int'
+    if ty == 'b':
+        return 'Bool'
+    if ty == 'c':
+        return 'Char'
+    if ty == ('str',):
+        return 'List Char'
+    if ty == T_MAT:
+        return 'Mat3 α'
+    if ty in (('pt',), ('vec',)):
+        return 'α × α'
+    if isinstance(ty, tuple) and ty[0] == 'opt':
+        return 'Option (%s)' % lean_ty(ty[1])
+    if isinstance(ty, tuple) and ty[0] == 'list' and ty[1] is not None:
+        return 'List (%s)' % lean_ty(ty[1])
+    if isinstance(ty, tuple) and ty[0] == 'tup':
+        return ' × '.join('(%s)' % lean_ty(t) for t in ty[1])
+    if isinstance(ty, tuple) and ty[0] == 'st' and ty[1] in ('Line2', 'Atom2', 'LJ2'):
+        return '%s α' % ty[1]
+    raise Untranslatable('no Lean type for %r' % (ty,))
+
+
 # ----------------------------------------------------------------------------- function extraction
 
 def impl_block(src, header_re):
@@ -1765,6 +1808,8 @@ class Group:
             if impx is not None:
                 em.errors = impx
                 em.digits = set()
+                em.aux, em.auxn, em.fn_name = [], [0], lean_name
+                em.err_type = re.match(r'Except\s+(\w+)', rty_lean).group(1)
                 st = list(ast[1])
                 tl = ast[2]
                 if not (tl is not None and tl[0] == 'call' and tl[1] == ('path', ['Ok']) and len(tl[2]) == 1):
@@ -1778,6 +1823,8 @@ class Group:
                 term, ty = em.blk(ast)
             if post is not None:
                 term = post(term, ty)
+            for a in getattr(em, 'aux', []):
+                self.defs.append(a)
             self.defs.append('/-- `%s` (%s) -/\ndef %s %s : %s :=\n  %s\n' % (rust_name, rel, lean_name, sig, rty_lean, term))
         except Untranslatable as e:
             self.notes.append('%s (%s): %s' % (rust_name, rel, e))
